@@ -73,6 +73,8 @@ def run_cfg(binary, packs, cfg, tag):
 
 
 def run(ctx):
+    # packs of 32 programs under busy-waiting worker threads burn CPU on a loaded machine: give the watchdog room
+    os.environ.setdefault("SIM_CPU_LIMIT", "90")
     binary = simlib.build()
     evaluations, programs, done, per = 0, 0, [], {}
     nontrivial, suspects, samples = set(), [], []
@@ -210,6 +212,7 @@ def run(ctx):
 
 
 def replay(ctx, rf):
+    os.environ.setdefault("SIM_CPU_LIMIT", "90")
     binary = simlib.build()
     if "program" in rf["case"] and "case" not in rf["case"]:      # a hand-written program: 60 runs under thread/2/posix
         p = rf["case"]["program"]
